@@ -4,7 +4,7 @@
 // Item (TAB separated):  <okl file> \t <kernel name> \t <run>;<run>;...      run = comma separated argument codes
 // Argument codes:
 //   m:<dtype>   occa::memory of 16 elements of that dtype: byte bool char short int long float double
-//               int2 int4 float2 float4 double2 (OKL vector dtypes)  S (struct {float a; int b;})  T4 (tuple(float,4))
+//               int2 int4 float2 float3 float4 double2 (OKL vector dtypes)  S (struct {float a; int b;})  T4 (tuple(float,4))
 //               T2 (tuple(float,2))  I4 (tuple(int,4)) C (custom dtype "myType", 8 bytes)
 //   s:<type>    scalar by value: bool char short int long float double uchar uint ulong
 //   n           nullptr            u   uninitialised occa::memory      p   raw host pointer (int*)
@@ -49,7 +49,13 @@ static std::string oneLine(std::string s) {
 }
 
 static occa::device DEV;
-static occa::dtype_t structS, tupleT4, tupleT2, tupleI4, customC;
+// Registered dtypes must outlive every copy (a copy of a registered dtype only refers to the original): they are built once
+// by direct initialisation and never assigned.
+static occa::dtype_t structS;
+static occa::dtype_t tupleT4("T4", occa::dtype_t::tuple(occa::dtype::float_, 4), true);
+static occa::dtype_t tupleT2("T2", occa::dtype_t::tuple(occa::dtype::float_, 2), true);
+static occa::dtype_t tupleI4("I4", occa::dtype_t::tuple(occa::dtype::int_, 4), true);
+static occa::dtype_t customC("myType", 8, true);
 
 static occa::memory memOf(const std::string &d) {
   const int n = 16;
@@ -65,6 +71,7 @@ static occa::memory memOf(const std::string &d) {
   if (d == "int4")   return DEV.malloc(n, occa::dtype::int4);
   if (d == "float2") return DEV.malloc(n, occa::dtype::float2);
   if (d == "float4") return DEV.malloc(n, occa::dtype::float4);
+  if (d == "float3") return DEV.malloc(n, occa::dtype::float3);
   if (d == "double2") return DEV.malloc(n, occa::dtype::double2);
   if (d == "S")      return DEV.malloc(n, structS);
   if (d == "T4")     return DEV.malloc(n, tupleT4);
@@ -127,10 +134,7 @@ int main(int argc, char **argv) {
 
   DEV = occa::device({{"mode", "Serial"}});
   structS.addField("a", occa::dtype::float_).addField("b", occa::dtype::int_);
-  tupleT4 = occa::dtype_t::tuple(occa::dtype::float_, 4);
-  tupleT2 = occa::dtype_t::tuple(occa::dtype::float_, 2);
-  tupleI4 = occa::dtype_t::tuple(occa::dtype::int_, 4);
-  customC = occa::dtype_t("myType", 8);
+  structS.registerType();
 
   for (size_t i = 0; i < items.size(); ++i) {
     printf("BEGIN %zu\n", i);
@@ -167,7 +171,12 @@ int main(int argc, char **argv) {
           k.clearArgs();
           if (runs[r].size()) {
             std::vector<std::string> codes = split(runs[r], ',');
-            for (size_t a = 0; a < codes.size(); ++a) pushArg(k, codes[a], keep);
+            try {
+              for (size_t a = 0; a < codes.size(); ++a) pushArg(k, codes[a], keep);
+            } catch (occa::exception &e) {
+              // building the argument list is the harness' job: an exception here is not a validation decision
+              throw std::string("creating the arguments raised: " + e.message.substr(0, 120));
+            }
           }
           k.run();
           DEV.finish();
@@ -175,6 +184,7 @@ int main(int argc, char **argv) {
           decision = "throw:" + classify(e.message);
         }
         printf("D %zu %s\n", r, decision.c_str());
+        fflush(stdout);                      // a crash in the next run must not lose the decisions made so far
       }
       k.free();
     } catch (occa::exception &e) {
